@@ -5,7 +5,7 @@
     or moved out.  Every unsafe operation of raw.rs is written as the code writes it, in an
     error monad: dereferencing a free cell is [EUaf], reading an uninitialised key or value is
     [EUninit], freeing twice is [EDoubleFree], an [unwrap()] on [None] is [EUnwrap]. *)
-From VF Require Import Base.
+From VF Require Import Base Iter.
 From Coq Require Import List Arith Lia.
 Import ListNotations.
 Local Open Scope nat_scope.
@@ -423,7 +423,8 @@ Inductive hout :=
 | OUnit
 | OBool (b : bool)
 | OValPut (o : option val) (r : option put_result)
-| OBoolPut (b : bool) (r : option put_result).
+| OBoolPut (b : bool) (r : option put_result)
+| OIter (kd : iter_kind) (ys : list (option entry * nat) * list (option entry * nat) * list (option entry * nat)).
 
 Definition hstep (h : heap) (q : hlru) (o : hop) : hres (heap * hlru * hout) :=
   match o with
